@@ -470,7 +470,7 @@ impl Parser {
             let binding = self.parse_expr()?;
             self.struct_literals_allowed = true;
             self.expect(&TokenEnum::LeftBrace)?;
-            let loop_body = self.parse_stmts()?;
+            let loop_body = self.nested(Self::parse_stmts)?;
             let meta_end = self.expect(&TokenEnum::RightBrace)?;
             let meta = join_meta(meta, meta_end);
             return Ok(Stmt::new(
